@@ -144,6 +144,8 @@ class Gen(object):
             if r.random() < p.get("nonstring", 0):
                 # phases are "numeric or string" per the schema; ids are arbitrary JSON
                 m[r.choice(["phase", "id", "body"])] = r.choice(["#7", "#42", "#2.5", "#true"])
+            if r.random() < p.get("badmood", 0) / 2:
+                m[r.choice(["phase", "id", "body"])] = r.choice(["#[1]", "#{}"])
         elif ty == "close":
             ch = self.mbox_choices(fl["app"])
             m["mailbox"] = r.choice([ABSENT] + ch) if ch else ABSENT
@@ -414,6 +416,8 @@ def run_scripted(rng, drv, profile, tid):
                      id=rng.choice([ABSENT, "i1", "i2"]))
             if rng.random() < p.get("nonstring", 0):
                 m[rng.choice(["phase", "id"])] = rng.choice(["#7", "#42", "#2.5", "#true"])
+            if rng.random() < p.get("badmood", 0) / 2:
+                m[rng.choice(["phase", "id", "body"])] = rng.choice(["#[1]", "#{}"])
         elif op == "release":
             m = msg0(type="release", nameplate=rng.choice([ABSENT, cl.np or ABSENT]))
         elif op == "close":
